@@ -466,6 +466,35 @@ def g7_withdrawn_undeclared(rng, big=False):
     return make_valid(s, rng)
 
 
+def g12_slow_quota_decay(rng, big=False):
+    """
+    seats-1 strong candidates elected at once on bullet votes (their surplus can only exhaust) and two level weak hopefuls for the
+    last seat: every Meek iteration shrinks the quota by the factor (seats-1)/(seats+1) only, so a round needs hundreds to
+    thousands of distributions to bring the surplus under omega (the slowest convergence the rule has)
+    """
+    ns = int(round(10 ** rng.uniform(1.45, 2.1)))        # 28 .. 126 seats
+    k = ns - 1
+    nc = k + 2
+    cands = list(range(1, nc + 1))
+    order = rng.sample(cands, nc)
+    strong, weak = order[:k], order[k:]
+    lines = []
+    for c in strong:
+        r = [c]
+        if rng.random() < 0.3:
+            r += rng.sample([x for x in strong if x != c], rng.randint(1, 2))
+        lines.append((rng.randint(40, 90), r))
+    h = rng.randint(1, 3)
+    for c in weak:
+        lines.append((h, [c]))
+    if rng.random() < 0.3:
+        lines.append((1, [weak[0], strong[0]]))         # not level after all: the lower one is a sure loser at some point
+    rng.shuffle(lines)
+    s = base(nc, ns, lines, rng)
+    s['family'] = 'G12'
+    return make_valid(s, rng)
+
+
 def g8_equal_ranks(rng, big=False):
     "ballots with equal rankings (meek / warren only)"
     nc = rng.randint(3, 8 if big else 6)
@@ -487,12 +516,58 @@ def g8_equal_ranks(rng, big=False):
     return make_valid(s, rng)
 
 
+def _g8b_strict(rng):
+    """
+    the quota-creep recipe with nothing left to chance: A holds exactly total/(seats+1) and receives nothing else, B is elected
+    beside it with a surplus, `weak` is the lowest hopeful, shares a 3- or 6-way equal ranking and has a ballot that goes on to B
+    (so the round after its exclusion re-iterates with a quota one unit higher than A's tally)
+    """
+    ns = rng.randint(3, 4)
+    k = rng.randint(2, 4)
+    nc = 3 + k
+    cands = list(range(1, nc + 1))
+    order = rng.sample(cands, nc)
+    A, B, weak = order[:3]
+    others = order[3:]
+    q = rng.randint(4, 14)
+    total = q * (ns + 1)
+    neq = rng.randint(1, 2)
+    room = total - q - neq - 1 - (q + 1)
+    lo = neq + 2
+    if room < lo * k:
+        return None
+    vs = []
+    for i in range(k):
+        hi = min(q + 3, room - sum(vs) - lo * (k - i - 1))
+        vs.append(rng.randint(lo, max(lo, hi)))
+    nb = total - q - neq - 1 - sum(vs)
+    if nb < q + 1:
+        return None
+    tail = [c for c in cands if c not in (A, weak)]
+    lines = [(q, [[A]] + [[c] for c in rng.sample(tail, rng.randint(0, 2))])]
+    grp = [weak] + rng.sample(others, 5 if (len(others) >= 5 and rng.random() < 0.3) else 2)
+    lines.append((neq, [grp] + [[c] for c in rng.sample([x for x in tail if x not in grp], rng.randint(0, 1))]))
+    lines.append((nb, [[B]] + [[c] for c in rng.sample(others, rng.randint(1, 2))]))
+    lines.append((1, [[weak], [B]] + [[c] for c in rng.sample(others, rng.randint(0, 1))]))
+    for c, v in zip(others, vs):
+        lines.append((v, [[c]] + [[x] for x in rng.sample([o for o in others if o != c] + [B], rng.randint(0, 2))]))
+    rng.shuffle(lines)
+    s = base(nc, ns, lines, rng)
+    s['eq'] = True
+    s['family'] = 'G8b'
+    return make_valid(s, rng)
+
+
 def g8b_quota_creep(rng, big=False):
     """
     equal-rank ballots whose split is inexact at first (3 or 6 ways) and becomes exact after a weak member of the group is
     excluded, next to a candidate holding exactly ballots/(seats+1) first preferences and another with a large surplus:
     the Meek quota, computed from truncated votes, creeps up by one unit in the last place in a later round
     """
+    if rng.random() < 0.6:
+        s = _g8b_strict(rng)
+        if s is not None:
+            return s
     ns = rng.randint(1, 4)
     nc = rng.randint(max(4, ns + 2), 8)
     cands = list(range(1, nc + 1))
@@ -595,7 +670,7 @@ def g9_real_files(rng, big=False, repo=None):
 
 FAMILIES = {
     'G1': g1_uniform, 'G2': g2_ties, 'G3': g3_quota_boundary, 'G4': g4_chains, 'G5': g5_coalition,
-    'G4b': g4b_tiny_chained_surpluses, 'G5b': g5b_two_surpluses, 'G11': g11_mid_electorate, 'G6': g6_degenerate, 'G7': g7_withdrawn_undeclared, 'G8': g8_equal_ranks, 'G8b': g8b_quota_creep, 'G9': g9_real_files,
+    'G4b': g4b_tiny_chained_surpluses, 'G5b': g5b_two_surpluses, 'G11': g11_mid_electorate, 'G6': g6_degenerate, 'G7': g7_withdrawn_undeclared, 'G8': g8_equal_ranks, 'G8b': g8b_quota_creep, 'G12': g12_slow_quota_decay, 'G9': g9_real_files,
     'G10': g10_sure_losers,
 }
 
